@@ -204,7 +204,7 @@ def run(spec, mon):
             # tag names that CONTAIN the operator words of the new dialect (android, order, notify, sandbox) with old-style syntax
             alt = ["android", "order", "notify", "sandbox", "b"]
             gen["tags"] = alt
-        case = RB.gen_case(rng, gen=gen, p_stop=0.1, p_dry=0.15, p_noskipped=0.5, p_user_skip=0.1)
+        case = RB.gen_case(rng, gen=gen, p_stop=0.1, p_dry=0.15, p_noskipped=0.5, p_user_skip=0.1, p_names=0.1)
         if i % 9 == 4:
             ast, args = RB.random_expr(rng, tags=alt)
             case["cfg"]["tags"] = ast
